@@ -309,6 +309,10 @@ def main(argv: List[str]) -> int:
         from . import conformance
 
         return conformance.main(argv[1:])
+    if cmd == "selftest-daskconf":
+        from . import daskconf
+
+        return daskconf.main(argv[1:])
     if cmd == "selftest-mutants":
         from . import mutants
 
